@@ -26,14 +26,49 @@ def codes(s):
     return "[" + ";".join(str(ord(c)) for c in s) + "]"
 
 
+def hook_spans(mb):
+    """[(start, end)] of the `#[cfg(prqlc_verif)]`-guarded statements / items in masked text (strings and comments blank)"""
+    spans = []
+    for mm in re.finditer(r"#\s*\[\s*cfg\s*\(\s*prqlc_verif\s*\)\s*\]", mb):
+        if spans and mm.start() < spans[-1][1]:
+            continue
+        i, depth, opened_block = mm.end(), 0, False
+        while i < len(mb):
+            c = mb[i]
+            if c in "([{":
+                if c == "{" and depth == 0:
+                    opened_block = True
+                depth += 1
+            elif c in ")]}":
+                depth -= 1
+                if depth < 0:
+                    raise ExtractError("cfg(prqlc_verif) guard at offset %d: statement not delimited" % mm.start())
+                if depth == 0 and c == "}" and opened_block and not re.match(r"\s*[;.)?,]", mb[i + 1:i + 40]):
+                    i += 1
+                    break
+            elif c == ";" and depth == 0:
+                i += 1
+                break
+            i += 1
+        else:
+            raise ExtractError("cfg(prqlc_verif) guard at offset %d: statement not delimited" % mm.start())
+        spans.append((mm.start(), i))
+    return spans
+
+
 def fn_text(rel, pattern, strip_comments=True):
     """normalised text of the body of the first item matching `pattern` (comments removed, whitespace collapsed)"""
     src = read(rel)
     m = mask(src)
     s, e = block_after(src, m, pattern)
     body = src[s:e]
+    mb = m[s:e]
+    # verification hooks are add-only, never compiled in normal builds: drop every statement / item guarded by
+    # #[cfg(prqlc_verif)] (attribute up to the `;` at nesting depth 0, or the closing brace of a block item)
+    for a, b in reversed(hook_spans(mb)):
+        body = body[:a] + " " * (b - a) + body[b:]
+        mb = mb[:a] + " " * (b - a) + mb[b:]
     if strip_comments:
-        mb = m[s:e]
         # keep string contents (from src) but drop comments (blank in mask, and not inside a string literal)
         out = []
         i = 0
@@ -448,7 +483,7 @@ PINNED = {
     "parser::import_def": "779ef6dfbd065f4e",
     "Stmt::write": "a9bd15b8ac448f64",
     "Stmts::write": "7a037f3d9fa22f69",
-    "pl_to_prql": "e9c07143ffe47145",
+    "pl_to_prql": "4ca719fc039eac18",  # re-recorded at 6c9d120: hook fmt-calls (cfg-guarded statements are stripped) turned `Ok(write(..).unwrap())` into `let res = write(..).unwrap(); Ok(res)`
     "break_line_within_parenthesis": "931cc9dcbdd54a1d",
     "SeparatedExprs::write": "61c9fc8c5df4c642",
     "SeparatedExprs::write_inline": "4ab0632dd1848ec9",
